@@ -156,6 +156,159 @@ CHECKS["C08"] = dict(
          "batch layouts that raise belong to C10.",
     design="§6 C08")
 
+AX_R = ("Axioms (Print Assumptions): standard-library reals (sig_forall_dec, sig_not_dec, functional_extensionality_dep), "
+        "Classical_Prop.classic; Uint63/PrimInt63 primitive specs for the interval/bigQ run theorems only.")
+
+CHECKS["C04"] = dict(
+    technique="Coq proofs on rate-matrix builders regenerated from source (ast translator T2: HKY.q, GTR.q, JC closed forms, LG/WAG and genetic-code tables) and on hand-written general/empirical/MG94 builders: rows sum to zero, off-diagonals non-negative, detailed balance, normalisation, spectral formula = semigroup with generator Q; Paramcoq enclosure of an exact Taylor reference; correspondence on q(), frequencies, p_t()",
+    text="23 theorems in prop/C04.v: C04_builder_rate_matrix / _reversible / C04_normalised / C04_norm_positive for every state count, "
+         "mapping and parameter value; C04_hky / C04_gtr (+ _is_documented_matrix) about the entries regenerated from nucleotide.py; "
+         "C04_general_symmetric / _nonsymmetric / C04_empirical / C04_mg94 (every genetic code table regenerated from source); "
+         "C04_spectral_semigroup and C04_spectral_generator (A diag(exp(lambda t)) B with A B = I: P(0)=I, P(s+t)=P(s)P(t), P'(0)=Q), "
+         "C04_symmetrisation (the sqrt(pi) similarity the code uses), C04_jc69 / C04_general_jc69(_q) closed forms; "
+         "C04_run_encloses_Q / _taylor: the interval runs enclose the real model. C04_symmetric_p_t_partial: 'P(t) IS the matrix "
+         "exponential' is concluded from semigroup + generator + continuity by the classical uniqueness theorem, which is not "
+         "formalised. Tie: T2 translator + interval-run correspondence on q(), frequencies, p_t(t) of every model class built "
+         "from JSON (single, batched all / rates-only / frequencies-only), t in [0,100], against the exact scaling-and-squaring "
+         "Taylor reference of the model's Q; eig oracles validated exactly; property identities (row sums, P(0)=I, semigroup, "
+         "pi P = pi, detailed balance) evaluated on the implementation.",
+    note="Trusted: Coq kernel; T2 translator; hand-written M_subst.v; not formalised: uniqueness of the matrix semigroup with given "
+         "generator, truncation bound of the degree-20 Taylor reference (cross-checked by the semigroup identity each run); torch "
+         "eigh/matrix_exp are oracles validated per case. " + AX_R,
+    design="§6 C04")
+
+CHECKS["C09"] = dict(
+    technique="Coq proofs (Coquelicot is_derive) that the closed forms p0 and q solve the birth-death master equations for all positive rates, boundary wiring of the backward recursion, split-epoch invariance, single epoch = constant model; JSON option table regenerated from from_json by translator T6 and proved to select what it names; Paramcoq enclosures; interval-run correspondence on log_prob / BDSKModel() / BirthDeathModel()",
+    text="14 theorems in prop/C09.v: C09_p0_solves_master, C09_q_solves_master (d/dt of the closed forms = right-hand sides of the master "
+         "equations, every lambda, mu, psi > 0), C09_boundary_wiring, C09_split_epoch (one cut with identical rates and rho = 0 leaves p "
+         "and the q-product unchanged), C09_refinement_invariance_partial (any number of cuts of ONE epoch; cuts spread over several "
+         "epochs at once not composed), C09_single_epoch_is_constant, C09_options_cover_constructor / _defaults_agree / "
+         "_select_what_they_name over the table regenerated from BDSKModel.from_json / BirthDeathModel.from_json on every run, "
+         "C09_run_encloses_* free theorems. Tie: T6 + interval-run correspondence (relative 1e-9) on PiecewiseConstantBirthDeath.log_prob, "
+         "BDSKModel(), BirthDeath.log_prob, BirthDeathModel() over random trees n = 2..12, 1..8 epochs, boundaries on node / tip times, "
+         "rho at boundaries, removal probability, relative times, +- survival; pairs (epoch, split epoch); RK4 integration of the master "
+         "equations along the tree as an implementation-side cross-check.",
+    note="Trusted: Coq kernel; hand-written M_bdsk.v; T6 translator; RK4 integrator (supporting only); torch searchsorted/gather "
+         "modelled on exact times. Known finding kept: removal probability with several epochs raises. " + AX_R,
+    design="§6 C09")
+
+CHECKS["C10"] = dict(
+    technique="Coq proofs on a shaped-tensor model (broadcasting, reductions, JointDistributionModel.log_prob case analysis, sample_shape rules): row-wise action of broadcast operations and 'joint adds components of the same sample only' for every shape in the unambiguous class, refutations exhibiting the ambiguous classes; slice-oracle correspondence on every callable model with every subset of parameters batched",
+    text="12 theorems in prop/C10.v: C10_broadcast_rowwise / _row_dependency (an elementwise broadcast of a [S,...] operand with an "
+         "unbatched one acts row by row, for every shape), C10_joint_no_mixing(_R) (for every list of components shaped sample_shape_i "
+         "++ event_i outside the decidable class `ambiguous', the model of JointDistributionModel.log_prob returns an error or the "
+         "per-sample sum), C10_longest_sample_shape, C10_dist_sample_shape_standard / _scalar / _event1 (the rule Distribution._sample_shape "
+         "implements), and C10_joint_mixing_refuted / _joint_event_axis_refuted / _clock_expand_refuted (members of the ambiguous classes, "
+         "kept as documentation of what cannot hold). Tie: tensor operations vs torch on random shapes; joint model vs "
+         "JointDistributionModel on the component tensors of real models; sample_shape rules vs real objects; the property itself "
+         "(batched call vs call with slice s only, relative 1e-9; unsupported combinations must raise) on a catalogue of ~60 model "
+         "classes / transformed parameters x parameter subsets x shapes [S], [S,K].",
+    note="Trusted: Coq kernel; hand-written M_tensor.v (strides, dtype promotion, torch.cat legacy rule not modelled); the densities "
+         "themselves are not re-proved here (batched = map over rows is what the slice oracle decides on the implementation). "
+         "Axioms: sig_forall_dec, functional_extensionality_dep (theorem over R only).",
+    design="§6 C10")
+
+CHECKS["C13"] = dict(
+    technique="Coq proofs by induction over JSON terms on a loader model (process_object(s) threading the registry, per-class schemas, remove_comments, expand_plates): references share identity, dangling and duplicate ids rejected at any depth, comments inert; type-string table regenerated from source (translator); outcome correspondence against torchtree.torchtree.main on random specification programs",
+    text="12 theorems in prop/C13.v: C13_refs_share_identity, C13_update_seen_by_every_holder, C13_dangling_rejected, C13_duplicate_rejected "
+         "(any nesting depth, incl. inside its own definition), C13_accepts_exactly_wellformed (loader accepts iff the decidable "
+         "well-formedness predicate holds), C13_comments_inert, C13_remove_comments_idempotent, C13_plates_expand; "
+         "C13_current_code_accepts_more / C13_nested_duplicate_refuted / C13_duplicate_rejected_partial document the loader before fix "
+         "106ad2b. Tie: translator t_classes (type strings) + correspondence over random specification programs (nested/inlined/"
+         "referenced objects over 18 classes, injected duplicate ids at random depth, dangling/forward/self references, comments, "
+         "ignored objects, plates): outcome (identity-sharing partition of the registry | error class) model vs the real main; "
+         "sharing tested on the implementation by `is' and by update-through-one-holder; json_factory round trips evaluated on the "
+         "implementation.",
+    note="Trusted: Coq kernel; hand-written M_loader.v with its per-class schema table (validated by the correspondence only); "
+         "t_classes translator; range references and Runnable objects outside the model. Theorems closed under the global context.",
+    design="§6 C13")
+
+CHECKS["C14"] = dict(
+    technique="Coq proofs over R: every objective (ELBO, multi-sample ELBO, VR, CUBO, self-normalised KLpq, [S] and [S,K]) returns exactly c when log p - log q = c for every draw (any sample count, alpha, n); conjugate-pair identities (log joint - log posterior is the constant log marginal) incl. through exp/sigmoid/affine transforms with their Jacobians; Paramcoq enclosures; correspondence on recorded p()/q() tensors of JSON-built conjugate models, fresh-draw and pairing checks",
+    text="27 theorems in prop/C14.v: tight_elbo / _elbo_multi / _vr / _vr_multi / _cubo / _cubo_multi / _klpq / _klpq_multi (list induction, "
+         "every sample count), elbo_entropy_identity and elbo_entropy_tight_iff (the analytic-entropy ELBO equals c plus a zero-mean "
+         "Monte-Carlo term: the honest form of 'for every draw' for that variant), logsumexp_spec, bayes_constant_* for gamma-exponential, "
+         "gamma-Poisson, normal-normal, beta-binomial and their transformed versions, exact_at_posterior, C14_run_encloses_*. Tie: "
+         "objectives and conjugate densities evaluated in Coq (interval run) on the tensors p() and q() returned on the same draw, for "
+         "every objective x sample shape x q in {joint, bare Distribution} x conjugate pair; each request must draw fresh samples and "
+         "evaluate p and q after the draw; objective vs log marginal on the implementation.",
+    note="Trusted: Coq kernel; hand-written M_vi.v; lgamma / ln sqrt(2 pi) / digamma values are oracle inputs; multivariate normal "
+         "pair checked on the implementation only; instrumentation by dynamic subclassing of the p/q models. " + AX_R,
+    design="§6 C14")
+
+CHECKS["C15"] = dict(
+    technique="Coq proofs by induction over runs on an MCMC chain model (carried density = target, accept iff u < min(1, exp(delta + Hastings)), reject restores the state, logged rows consistent) and, with Coquelicot, that each operator's Hastings term is the log ratio of the true proposal densities (scaler, sliding window, precision mixture); tuning expressions regenerated from source (translator T3) and proved monotone in the right direction; transition records of real runs replayed through the model",
+    text="30 theorems in prop/C15.v: carried_density_is_target, accept_iff(_unfolded), accept_log_form, reject_restores, logged_row_consistent, "
+         "trace_chained (every run, operator schedule and draw sequence); scaler_event_is_cdf / scale_density_is_derivative / "
+         "hastings_scaler, sliding_* / hastings_sliding, hastings_dirichlet, hastings_hmc_is_delta_H, precision_* / "
+         "hastings_precision_mixture; tuning_direction / _below / _adaptive over the getter/setter expressions regenerated from "
+         "operator.py, gmrf_block_updating.py and hmc on every run, tuning_direction_dirichlet_code (after fix 191b5ae; "
+         "_refuted_for_log_exp documents the former code), tuning_direction_dual_averaging_partial; replay_encloses_model. Tie: T3 + "
+         "transition records reconstructed by wrapping operator.step/accept/reject, the target and torch RNG around MCMC.run for seeded "
+         "runs with every operator type and mixtures, adaptation on/off: each record replayed through the Coq step function (target "
+         "re-evaluated on a freshly built model), logger rows compared with the state, bit-identity after rejection on the implementation.",
+    note="Trusted: Coq kernel; hand-written M_mcmc.v; T3 translator; torch RNG, Dirichlet sampler, Cholesky/solve kernels are oracles; "
+         "Gaussian block proposal density of the GMRF operator: Hastings checked numerically on the implementation, not proved; dual "
+         "averaging: partial. " + AX_R,
+    design="§6 C15")
+
+CHECKS["C16"] = dict(
+    technique="Coq proofs over any commutative ring / any gradient function / any dimension and step count: the code's leapfrog arrangement = L kick-drift-kick steps, exact reversibility, shear decomposition with unit Jacobian determinant (mathcomp determinants), exact conservation of the modified energy for harmonic targets, Hastings = change of kinetic energy; exact-rational correspondence on Gaussian targets and oracle-gradient correspondence on transformed/phylogenetic targets",
+    text="19 theorems in prop/C16.v: C16_leapfrog_is_standard, C16_leapfrog_reversible (flip o leapfrog o flip o leapfrog = id for ANY grad), "
+         "C16_leapfrog_shear_decomposition, C16_shear_jacobians_det_one / C16_shear_matrices_act_as_shears / C16_volume_preserving_dim1, "
+         "C16_volume_preserving_partial (chain rule over the composition left informal for nonlinear gradients), "
+         "C16_energy_error_harmonic (O(eps^2) for all L on quadratic potentials), C16_energy_error_partial (general targets: not proved), "
+         "C16_hmc_hastings_is_dK, C16_acceptance_on_full_hamiltonian, C16_kinetic_even, C16_minv_odd, C16_run_is_model(_gauss/_step). "
+         "Tie: positions written into the parameters and the returned momentum vs the exact rational run (Gaussian targets, dims 1..8, "
+         "diagonal and dense SPD mass matrices, several parameters per operator) and vs the model with the gradient as an oracle table "
+         "validated against autograd on a fresh model; geometric identities (forward-flip-forward, autograd Jacobian determinant, energy "
+         "error at eps, eps/2, eps/4) evaluated on the implementation.",
+    note="Trusted: Coq kernel; hand-written M_leapfrog.v; gradient oracle tables; general-target O(eps^2) and nonlinear volume "
+         "preservation are partial (implementation-side checks only). " + AX_R,
+    design="§6 C16")
+
+CHECKS["C17"] = dict(
+    technique="Coq proofs on a JSON-value model of json.dump/load and on per-class state tables REGENERATED from every state_dict/load_state_dict pair, run loop and update_parameters by translator T5: keys read = keys written and restored with inverse decoding, every mutated field restored, loops resume at the next iteration, round trip and same-trajectory theorems; restart correspondence through the command-line entry point",
+    text="19 theorems in prop/C17.v: C17_json_roundtrip / _exact / _int_keys_become_strings, C17_torch_state_rekey, C17_roundtrip_object / _tree "
+         "(restore (save s) = s for any nesting of objects whose tables satisfy keys_ok), C17_resume_same_trajectory / _epoch (for any "
+         "deterministic step function the resumed run visits exactly the remaining states), C17_param_dtype / _nn; and, decided by "
+         "vm_compute on the tables regenerated from /repo on every run: C17_keys_read_written_restored, C17_mutated_fields_restored, "
+         "C17_loops_resume_at_next_iteration, C17_parameters_keep_dtype (these were false before the seven fix: commits and turn false "
+         "again if a key is renamed, dropped or read back differently). Tie: T5 + correspondence through torchtree.torchtree.main with "
+         "a checkpoint: state_dict() and parameter tensors before saving vs after restart, then K more iterations interrupted vs "
+         "uninterrupted, for torch optimisers x schedulers, MCMC x every operator/adaptor combination, float32/float64, nn flag.",
+    note="Trusted: Coq kernel; T5 translator (fail-closed ast; which attribute each key goes back to); hand-written M_ckpt.v; torch.optim "
+         "state layout as data. Theorems closed under the global context.",
+    design="§6 C17")
+
+CHECKS["C19"] = dict(
+    technique="Coq-verified checker: wf_config (ids unique at any depth, every reference resolves in processing order, every type registered, no identified object under a key the loader ignores) proved sound for the loader model, and check_jacobians proved to imply 'density handed to the sampler = joint + each needed log-Jacobian exactly once'; both run by vm_compute on every configuration the real torchtree-cli emits over a pairwise-covering option set, beside the real loader (translation validation)",
+    text="10 theorems in prop/C19.v: C19_loader_is_run_of_events, C19_wf_config_sound, C19_wf_config_constructs_all, C19_loader_rejects_dangling / "
+         "_duplicate, C19_jacobian_exactly_once, C19_jacobian_exact, C19_checker_rejects_missing / _repeated / _foreign. Tie: the class "
+         "table regenerated from the CLI and library sources (t_cliclasses); for each of ~240 (quick) / ~3000 (thorough) option "
+         "combinations of advi/map/mcmc/hmc the emitted JSON goes (a) through the verified checker in Coq and (b) through the real "
+         "loader with a tracing registry (same sequence of registry operations as the model), then joint / joint.jacobian and their "
+         "gradients must be finite, constrained initial values equal the requested ones, joint.jacobian - joint = sum of independently "
+         "computed log-Jacobians, and a 2-iteration run must not raise. Runnability is an execution fact, not a theorem.",
+    note="Trusted: Coq kernel; hand-written M_config.v (per-class schema: which keys are processed, which density has which random "
+         "variable); t_cliclasses translator; the option sampler. 16 known findings kept (CLI defects not repaired: see "
+         "known_findings.d/C19.json). Axioms: sig_forall_dec, functional_extensionality_dep (Jacobian sums over R).",
+    design="§6 C19")
+
+CHECKS["C20"] = dict(
+    technique="Coq proofs: sum of squared (weighted) first differences = x^T Q x for the tridiagonal matrix the model publishes (every length, list induction), sufficient statistics reproduce the skyride/skygrid log density for every tree, sampling scheme and grid (reusing the C08 counting theorem), integrated priors equal the integral given the Gamma-kernel normalisation; Paramcoq enclosures; interval-run correspondence on GMRF(), precision_matrix(), integrated priors and sufficient_statistics()",
+    text="19 theorems in prop/C20.v: C20_gmrf_is_quadratic_form, C20_weighted_is_quadratic_form, C20_gmrf_is_gaussian_form, "
+         "C20_plain_is_unit_weighted, C20_plain_matrix_error / C20_weighted_precision_refuted (the unweighted matrix published before fix "
+         "a1e0fb1 is not the weighted form), C20_suffstats_any_intervals, C20_skygrid_ / C20_skyride_suffstats_reproduce_logprob, "
+         "C20_constant_through_statistic, C20_integrated_pointwise / C20_gmrf_integrated_is_integral, C20_const_integrated_pointwise / "
+         "_is_integral (given the hypothesis integral of tau^(a-1) e^(-b tau) = Gamma(a)/b^a about the lgamma oracle), C20_run_encloses_*. "
+         "Tie: interval-run correspondence on GMRF() (plain, weighted, time-aware +- rescale), precision_matrix(), GMRFGammaIntegrated(), "
+         "ConstantCoalescentIntegrated.log_prob, sufficient_statistics(); field length 2..50, single and batched; x^T Q x with the "
+         "PUBLISHED matrix vs GMRF() on the implementation.",
+    note="Trusted: Coq kernel; hand-written M_gmrf.v / M_suffstat.v; the Gamma-kernel normalisation is a Section hypothesis about the "
+         "lgamma oracle (no Gamma function in the installed libraries); numerical quadrature cross-check is implementation-side. " + AX_R,
+    design="§6 C20")
+
 PENDING_REASON = "check not built yet in this session (build order in DESIGN.md §9); will be claimed once its theorem file and correspondence run clean"
 
 
